@@ -181,6 +181,7 @@ void h_c07_so2_alias(void)
     SO2State a3 = a, b3 = b; so2_interpolate(&a3, &b3, t, &b3); __CPROVER_assert(b3.value == out.value, "C07.alias same result when the output aliases the second input");
     if (t == 1.0) REACH("t == 1");
 }
+bool nondet_bool(void);
 void h_c07_time(void)
 {
     TimeState a, b, out; a.position = nondet_double(); b.position = nondet_double(); double t = nondet_double();
@@ -191,6 +192,19 @@ void h_c07_time(void)
     if (a.position <= b.position) __CPROVER_assert(out.position >= a.position, "C07.between the curve starts at the first state and moves towards the second");
     else __CPROVER_assert(out.position <= a.position, "C07.between the curve starts at the first state and moves towards the second");
     if (t > 0.0 && t < 1.0) REACH("interior");
+}
+void h_c07_time_alias(void)
+{   /* C07.alias: the output may be the same object as either input */
+    TimeState a, b; a.position = nondet_double(); b.position = nondet_double(); double t = nondet_double(); bool onto_from = nondet_bool();
+    __CPROVER_assume(IS_FINITE(a.position) && IS_FINITE(b.position) && IS_FINITE(b.position - a.position) && t >= 0.0 && t <= 1.0);
+    double a0 = a.position, b0 = b.position;
+    if (onto_from) time_interpolate(&a, &b, t, &a); else time_interpolate(&a, &b, t, &b);
+    double r = onto_from ? a.position : b.position;
+    if (t == 0.0) __CPROVER_assert(r == a0, "C07.alias interpolating at t = 0 yields the first state, also into an aliased output");
+    if (a0 <= b0) __CPROVER_assert(r >= a0, "C07.alias the aliased result starts at the first state and moves towards the second");
+    else __CPROVER_assert(r <= a0, "C07.alias the aliased result starts at the first state and moves towards the second");
+    if (onto_from) __CPROVER_assert(b.position == b0, "the other input is untouched"); else __CPROVER_assert(a.position == a0, "the other input is untouched");
+    if (onto_from && t > 0.0) REACH("output aliases from"); if (!onto_from) REACH("output aliases to");
 }
 void h_c07_disc(void)
 {
